@@ -1018,6 +1018,9 @@ func areaInstance(r *Rng, n int, dir string) (*AreaOut, error) {
 	if err := malformedKeyLoad(out); err != nil {
 		return nil, err
 	}
+	if err := dupsortCollision(out); err != nil {
+		return nil, err
+	}
 	out.Cases = len(cases)
 	out.Distinct = len(nontriv)
 	for i := 0; i < 3 && i < len(cases); i++ {
